@@ -141,3 +141,49 @@ Proof. exact power_loss_any_instant3. Qed.
 Print Assumptions C06_power_loss_at_any_instant_with_crashes_in_clean_opens.
 
 Definition C06_any_instant_nonvacuous := power_loss_any_instant_nonvacuous.
+
+(* ---- POWER LOSS on the chain and PHYSICAL index (PhysPowerLoss.v): the power-loss model restated for any index
+   ([gpl], coinciding with [pl] on the flat index); related disks and related traces have related admissible
+   images, in both directions, with the same set of files that lost a write ---- *)
+From Pogreb Require Import Base BaseLemmas Crc Bytes Record RecordProofs Flat Index Spec DB DBInv
+  DBLemmas DBProofsOps DBMeta DBProofsCompact DBProofsRecovery DBSim DBRun DBSimExact
+  Bucket Phys PhysProofs PhysDB DBProofsCrash DBSimSessions PhysCrash PowerLoss PowerLoss2 PhysPowerLoss.
+Import ListNotations.
+(* every admissible power-loss image of the physical-index history has a related image of the chain and of the flat history (same files lost a write), and conversely *)
+Theorem C06_power_loss_images_of_the_physical_index_are_related :
+  forall (d1 : (@DB.disk phys)) (dp : (@DB.disk pindex)) (df : (@DB.disk flat)) t1 tp tf L,
+
+  gdisk_rel PR d1 dp -> disk_rel dp df -> Forall2 (gev_rel PR) t1 tp -> Forall2 ev_rel tp tf ->
+  (forall L' img1, gpl phys_ops L d1 t1 L' img1 ->
+     exists imgp imgf, gpl chain_ops L dp tp L' imgp /\ pl L df tf L' imgf /\
+                       gdisk_rel PR img1 imgp /\ disk_rel imgp imgf) /\
+  (forall L' imgf, pl L df tf L' imgf ->
+     exists img1 imgp, gpl phys_ops L d1 t1 L' img1 /\ gpl chain_ops L dp tp L' imgp /\
+                       gdisk_rel PR img1 imgp /\ disk_rel imgp imgf).
+Proof. exact phys_pl_image. Qed.
+Print Assumptions C06_power_loss_images_of_the_physical_index_are_related.
+
+(* history, sync point, further steps, power failure after any number n of their events, any admissible image: db_open on the physical index recovers, the rebuilt index is well-formed, the answers are those of the sync point followed by a prefix of the later operations *)
+Theorem C06_synced_writes_survive_on_the_physical_index :
+  forall P seed c10 cp0 cff0 os0 cfs0 tr0 cffa osync cff1 os cfs tr cff' n L' img1,
+
+  params_ok P -> XOpen P cff0 -> T3 c10 cp0 cff0 ->
+  xrun P cff0 os0 cfs0 tr0 cffa -> xstep P cffa osync cff1 -> sync_point P osync ->
+  xrun P cff1 os cfs tr cff' ->
+  let c1a := gxrun phys_ops P c10 os0 in
+  let c1s := gxstep phys_ops P c1a osync in
+  gpl phys_ops fnone (s_disk (fst c10))
+      (gxtrace phys_ops P c10 os0 ++ s_trace (fst c1s) ++ firstn n (gxtrace phys_ops P c1s os)) L' img1 ->
+  answers1 P (fst c1s) (abs (s_disk (fst cff1))) /\
+  exists s2, db_open phys_ops P seed (closed1 img1) = (s2, OOpened true) /\ phys_open_ok s2 /\
+    exists j ms, (j <= length os)%nat /\ answers1 P s2 ms /\ NoDup (map fst ms) /\
+      (forall k, sget ms k = xspec_hist (firstn j os) (cont (s_disk (fst cff1))) k) /\
+      exists imgp imgf sp2 sf2,
+        pl fnone (s_disk (fst cff0)) (tr0 ++ s_trace (fst cff1) ++ firstn n tr) L' imgf /\
+        gdisk_rel PR img1 imgp /\ disk_rel imgp imgf /\ ms = abs imgf /\
+        gst_rel PR s2 sp2 /\ st_rel sp2 sf2 /\ Inv P sf2 /\
+        db_open flat_ops P seed (closed imgf) = (sf2, OOpened true).
+Proof. exact C06_synced_writes_survive_phys. Qed.
+Print Assumptions C06_synced_writes_survive_on_the_physical_index.
+
+Definition C06_physical_nonvacuous := PhysPLEx.C06_phys_nonvacuous.
